@@ -635,7 +635,8 @@ def sentinel_cases(ctx):
             c["query"] = [q for q in c["query"] if q[0] not in ("depth",)] + [["depth", "20"]]
             if r == 0 and "drmSelection" in W.manifests()[name]["features"] and kind != "multi":
                 c["stream"] = "bbb"
-                c["query"] = [q for q in c["query"] if q[0] != "drm"] + [["drm", "all"]]
+                c["query"] = [q for q in c["query"] if q[0] not in ("drm", "playready__version")] + [
+                    ["drm", "all"], ["playready__version", ["1.0", "2.0", "3.0", "4.0"][len(out) % 4]]]
             if r == 1 and "eventTypes" in W.manifests()[name]["features"]:
                 c["query"] = [q for q in c["query"] if not q[0].startswith(("events", "ping__", "scte35__"))] + [
                     ["events", "ping,scte35"], ["ping__inband", "0"], ["ping__count", "2"], ["scte35__inband", "0"],
@@ -672,54 +673,73 @@ def ch_site_table(ctx) -> Channel:
     sites, by_file = S.table()
     observed, with_sentinel = set(), set()
     ctx_lines, ctx_meta = [], []
-    with S.Marked(e.app, by_file):
-        for case in sentinel_cases(ctx):
-            try:
-                st, body, url = e.fetch(case)
-            except Exception as ex:
-                ch.errors.append(f"{type(ex).__name__}: {ex} on {json.dumps(case)[:160]}")
+
+    def analyse(text, url):
+        try:
+            plain, sp = S.spans(text)
+        except Exception as ex:
+            ch.disagreements.append({"what": f"site markers unbalanced: {ex}", "url": url})
+            return
+        cx = S.contexts(plain, sp)
+        per_doc = 0
+        for idx, start, end, depth in sp:
+            ch.evaluations += 1
+            row = sites[idx]
+            observed.add(idx)
+            raw = plain[start:end]
+            got_ctx = cx[(idx, start, end)]
+            if got_ctx != row["ctx"]:
+                ch.disagreements.append({"what": "rendered context differs from the table", "site": _site_id(row),
+                                         "table": row["ctx"], "rendered": got_ctx, "url": url})
+            bad = S.check_kind(row["kind"], got_ctx, raw)
+            if bad:
+                ch.disagreements.append({"what": bad, "site": _site_id(row), "kind": row["kind"], "raw": raw[:120],
+                                         "url": url})
+            if per_doc < 6 and len(plain) < 60000:
+                per_doc += 1
+                ctx_lines.append(f"xmlctx {hx(plain[:start])}")
+                ctx_meta.append((row, url))
+        for m in S.CORE.finditer(plain):
+            inside = [s for s in sp if s[1] <= m.start() and m.end() <= s[2]]
+            if not inside:
+                ch.disagreements.append({"what": "a sentinel was written outside every interpolation site",
+                                         "core": m.group(), "url": url, "near": plain[max(0, m.start() - 40):m.end() + 20]})
                 continue
-            ch.count(f"status={st}")
-            if st != 200:
-                continue
-            text = body.decode("utf-8")
-            try:
-                plain, sp = S.spans(text)
-            except Exception as ex:
-                ch.disagreements.append({"what": f"site markers unbalanced: {ex}", "url": url})
-                continue
-            cx = S.contexts(plain, sp)
-            per_doc = 0
-            for idx, start, end, depth in sp:
-                ch.evaluations += 1
-                row = sites[idx]
-                observed.add(idx)
-                raw = plain[start:end]
-                got_ctx = cx[(idx, start, end)]
-                if got_ctx != row["ctx"]:
-                    ch.disagreements.append({"what": "rendered context differs from the table", "site": _site_id(row),
-                                             "table": row["ctx"], "rendered": got_ctx, "url": url})
-                bad = S.check_kind(row["kind"], got_ctx, raw)
-                if bad:
-                    ch.disagreements.append({"what": bad, "site": _site_id(row), "kind": row["kind"], "raw": raw[:120],
-                                             "url": url})
-                if per_doc < 6 and len(plain) < 60000:
-                    per_doc += 1
-                    ctx_lines.append(f"xmlctx {hx(plain[:start])}")
-                    ctx_meta.append((row, url))
-            # sentinels
-            for m in S.CORE.finditer(plain):
-                inside = [s for s in sp if s[1] <= m.start() and m.end() <= s[2]]
-                if not inside:
-                    ch.disagreements.append({"what": "a sentinel was written outside every interpolation site",
-                                             "core": m.group(), "url": url, "near": plain[max(0, m.start() - 40):m.end() + 20]})
+            inner = min(inside, key=lambda s: s[2] - s[1])
+            with_sentinel.add(inner[0])
+            if sites[inner[0]]["kind"] not in ("untrusted", "markup"):
+                ch.disagreements.append({"what": "a stored / requested string reached a site not classified untrusted",
+                                         "core": m.group(), "site": _site_id(sites[inner[0]]),
+                                         "kind": sites[inner[0]]["kind"], "url": url})
+
+    # the PlayReady header templates are rendered into a base64 blob: look at them before they are encoded
+    import dashlive.drm.playready as PR
+    captured: list = []
+    orig_render = PR.render_template
+
+    def capturing_render(name, **kw):
+        out = orig_render(name, **kw)
+        captured.append(out)
+        return out
+
+    PR.render_template = capturing_render
+    try:
+        with S.Marked(e.app, by_file):
+            for case in sentinel_cases(ctx):
+                captured.clear()
+                try:
+                    st, body, url = e.fetch(case)
+                except Exception as ex:
+                    ch.errors.append(f"{type(ex).__name__}: {ex} on {json.dumps(case)[:160]}")
                     continue
-                inner = min(inside, key=lambda s: s[2] - s[1])
-                with_sentinel.add(inner[0])
-                if sites[inner[0]]["kind"] not in ("untrusted", "markup"):
-                    ch.disagreements.append({"what": "a stored / requested string reached a site not classified untrusted",
-                                             "core": m.group(), "site": _site_id(sites[inner[0]]),
-                                             "kind": sites[inner[0]]["kind"], "url": url})
+                ch.count(f"status={st}")
+                if st != 200:
+                    continue
+                analyse(body.decode("utf-8"), url)
+                for doc in captured[:4]:
+                    analyse(doc, url + " (WRMHEADER)")
+    finally:
+        PR.render_template = orig_render
     outs = _driver(ch, ctx_lines)
     for out, (row, url) in zip(outs, ctx_meta):
         if out is not None and out != row["ctx"]:
